@@ -81,4 +81,16 @@ func init() {
 		Stubbed: []string{"sync.Mutex and sync.Cond (simulated inside the scheduler; Signal wakes a seeded choice of waiter, no spurious wake-ups)", "map iteration order in Fetch (seeded permutation of the key snapshot)", "fsnotify event source and the module lookup (Ignore, DirAdded, watch loop) are not exercised"},
 		Assumptions: []string{"sync.Cond has no spurious wake-ups (documented)", "the standard library is that of go1.26.8", "porcupine v1.3.0 decides linearizability of the recorded history; Unknown (timeout) is counted as inconclusive"},
 	})
+	register(&spec{
+		ID: "C41", Title: "Closing a fake connection unblocks pending I/O", Level: "exploration",
+		Instrument: map[string]simgen.Options{xgo + "/x/fakenet": {Sync: true, Conc: true, Maps: true}},
+		Harness:    []harnessCopy{{"c41", "x/fakenet"}},
+		TestPkg:    "x/fakenet", TestName: "TestZSimC41",
+		QuickRuns: 20000, ThoroughRuns: 3000000, QuickBudget: 3 * time.Minute, ThoroughBudget: 40 * time.Minute,
+		MaxStepsQuick: 5000, MaxStepsThor: 20000, Chunk: 1250,
+		Rule: "each run draws 0-2 readers, 0-2 writers, 0-2 closers (each optionally issuing operations after its Close returned), an input feeder, stream knobs (does Close unblock the underlying stream, k-th call fails, k-th write blocks for a while or forever, EOF or not) and a scheduling strategy from its seed; the scheduler decides every interleaving at each channel operation, select, lock and stream call, and short-read lengths. A settle phase closes the connection while operations may still be pending. Non-trivial = at least 2 completed connection calls and 3 context switches; distinct = distinct (event-log hash, workload hash) pairs",
+		Real: []string{"x/fakenet/conn.go (NewConn, fakeConn.Read/Write/Close, connFeeder.do/run/close) compiled from the working tree", "real channels and select statements (polling order decided by the simulator)"},
+		Stubbed: []string{"sync.Mutex (simulated)", "the underlying in/out streams (simulated: short reads, errors, blocking, Close that does or does not unblock)"},
+		Assumptions: []string{"the standard library is that of go1.26.8", "a goroutine woken by another goroutine's channel operation runs only up to its next scheduling point concurrently with its waker"},
+	})
 }
